@@ -102,6 +102,11 @@ func (m *MessageCertificateRequest) Unmarshal(data []byte) error { //nolint:cycl
 	if (offset + signatureHashAlgorithmsLength) > len(data) {
 		return dtlserrors.ErrBufferTooSmall
 	}
+	if signatureHashAlgorithmsLength%2 != 0 {
+		// Every entry has two bytes: the last one would be completed with a
+		// byte of the field that follows.
+		return dtlserrors.ErrLengthMismatch
+	}
 
 	for i := 0; i < signatureHashAlgorithmsLength; i += 2 {
 		if len(data) < (offset + i + 2) {
